@@ -248,7 +248,7 @@ def token_texts(draw):
 
 
 def text_check(case, ctx):
-    """case: text.  The text and every variant with one backslash-newline inserted must tokenise like the reference."""
+    """case: text.  The text and every variant with one backslash-newline, a run of two or three, or two separate ones inserted must tokenise like the reference."""
     res = Result()
     text = case
     if "'" in text and "1'0" in text:
@@ -261,6 +261,10 @@ def text_check(case, ctx):
         res.discard.append("reference-rejects (unterminated comment/literal)")
         return res
     variants = [text] + [text[:i] + "\\\n" + text[i:] for i in range(len(text) + 1)]
+    # runs of adjacent splices (a continuation line that is only a backslash) and two separate splices
+    variants += [text[:i] + "\\\n\\\n" + text[i:] for i in range(len(text) + 1)]
+    variants += [text[:i] + "\\\n\\\n\\\n" + text[i:] for i in range(0, len(text) + 1, 3)]
+    variants += [text[:i] + "\\\n" + text[i:i + 2] + "\\\n" + text[i + 2:] for i in range(0, max(len(text) - 1, 1), 2)]
     marker = "ZZ9MARK"
     blob = "".join("%s%d %s\n" % (marker, k, v) for k, v in enumerate(variants))
     rc, toks, err = dump(ctx, blob)
@@ -289,7 +293,7 @@ def text_check(case, ctx):
         return res
     for k, (v, got) in enumerate(zip(variants, groups)):
         if got != want:
-            res.fail = dict(sig="", msg="%s: cproc %s, C11 6.4 %s" % ("text %r" % v if k == 0 else "splice at offset %d of %r" % (k - 1, text), got, want), input=v)
+            res.fail = dict(sig="", msg="%s: cproc %s, C11 6.4 %s" % ("text %r" % v if k == 0 else "splice variant %r of %r" % (v, text), got, want), input=v)
             return res
     multi = any(len(s) > 1 for _, s in want)
     if multi:
